@@ -161,3 +161,17 @@ def increase_min(
     :param value: the current max
     """
     shr_domains_stack[stacks_top[0], dom_indices_arr[var_idx], MIN] = value + 1 - dom_offsets_arr[var_idx]
+
+
+@njit(cache=True)
+def is_empty(shr_domains_stack: NDArray, stacks_top: NDArray, dom_indices_arr: NDArray, var_idx: int) -> bool:
+    """
+    Returns true iff the domain of a variable is empty.
+    :param shr_domains_stack: the stack of shared domains
+    :param stacks_top: the index of the top of the stacks as a Numpy array
+    :param dom_indices_arr: the domain indices
+    :param var_idx: the index of the variable
+    :return: a boolean
+    """
+    dom_idx = dom_indices_arr[var_idx]
+    return bool(shr_domains_stack[stacks_top[0], dom_idx, MIN] > shr_domains_stack[stacks_top[0], dom_idx, MAX])
